@@ -48,6 +48,19 @@ func (in *interp) call(name string, args []ast.Arg, cur jv.Val, sc *scope, pdept
 			continue
 		}
 		vals[i] = in.eval(a.X, cur, sc, pdepth)
+		if name == "not_null" && !in.failed() && vals[i].K != jv.Null {
+			// whether the remaining arguments are evaluated at all (and may
+			// fail) once a non-null one is found is not pinned
+			saved := in.f
+			for _, b := range args[i+1:] {
+				in.eval(b.X, cur, sc, pdepth)
+			}
+			if in.failed() {
+				in.f = saved
+				return in.undet("not_null-lazy-arguments")
+			}
+			return vals[i]
+		}
 	}
 	if in.failed() {
 		return jv.VNull()
